@@ -393,3 +393,14 @@ Fixpoint mrun (cs : list cfg) (ss : list qs) (tr : list (nat * label)) : option 
   end.
 Definition proj (i : nat) (tr : list (nat * label)) : list label :=
   map snd (filter (fun il => Nat.eqb (fst il) i) tr).
+
+(* ---- query subjects ----
+   Every query event subscribes to the subject it publishes; the connection delivers a request
+   published on subject [subj] to every query event subscribed to it.  [subs] lists the subjects of
+   the query events of a service object over its whole history (all Serve runs). *)
+Fixpoint route_from (i : nat) (subs : list N) (subj : N) : list nat :=
+  match subs with
+  | [] => []
+  | s :: r => if N.eqb s subj then i :: route_from (S i) r subj else route_from (S i) r subj
+  end.
+Definition route (subs : list N) (subj : N) : list nat := route_from 0 subs subj.
